@@ -21,6 +21,23 @@ BACKENDS = {
 }
 
 
+# server variants: speed limits that make every block wait in the throttle; a user manager that suspends
+VARIANTS = {
+    "plain": {},
+    "throttled": {"server_kwargs": {"read_speed_limit": 4, "write_speed_limit": 4}},
+    "slow-um": {"slow_um": True},
+}
+VARIANT_SCRIPTS = {
+    "throttled": ["retr", "stor", "list", "rest-retr", "retr-then-quit"],
+    "slow-um": ["login-only", "pwd", "retr", "retr-then-quit", "relogin"],
+}
+
+
+def _slow_users(a, base):
+    from vf.usermgr import make_slow_manager
+    return make_slow_manager(a, [a.User(base_path=base), a.User("bob", "pw", base_path=base)])
+
+
 class Cut(Exception):
     pass
 
@@ -29,8 +46,11 @@ def run_cut(case, chooser):
     script = corpus.SCRIPTS[case["script"]]
     n = 2 if case.get("second") else 1
     spy = backends.SpyControl()
+    variant = VARIANTS[case.get("variant", "plain")]
+    skw = dict(corpus.SERVER_KW)
+    skw.update(variant.get("server_kwargs", {}))
     rig = Rig(chooser=chooser, n_sessions=n, tree=corpus.TREE, window=case.get("window", 1), spy=spy,
-              server_kwargs=dict(corpus.SERVER_KW), **BACKENDS[case["backend"]])
+              server_kwargs=skw, users=_slow_users if variant.get("slow_um") else None, **BACKENDS[case["backend"]])
     problems = []
     try:
         w = rig.world
@@ -43,10 +63,21 @@ def run_cut(case, chooser):
         w.net.n_events = 0
         state = {"cut": False, "target_iter": None, "close_task": None}
         kind, k, j = case["cut"], case["k"], case.get("j", 0)
+        # "without waiting for further input": the clock is frozen after the cut, except that a backend which needs
+        # time for each call gets the time for 6 calls (less than any timeout configured on this server), and that a
+        # throttled session may finish the throttle pause it is in before it looks at its sockets again (the longest
+        # pause here is 10 s; no other timer is configured).  server.close() gets no time at all.
+        grace = 0.75 if case["backend"] == "slow" else 0
+        if case.get("variant") == "throttled" and kind != "close":
+            grace = 12
 
         def do_cut():
             state["cut"] = True
             chooser.active = True
+            # from here on the clock is frozen (see the grace below): whatever the session held must be released
+            # without the help of a timer that has yet to expire
+            state["deadline"] = w.loop.time() + grace
+            w.loop.time_limit = state["deadline"]
             if kind == "fin":
                 rig.sessions[0].peer.vanish()
             elif kind == "ctl-fin":
@@ -68,8 +99,17 @@ def run_cut(case, chooser):
             if not state["cut"] and state["target_iter"] is not None and it >= state["target_iter"]:
                 do_cut()
 
+        m = case.get("m")
+
+        def on_time(n):
+            # the server is waiting for a timer (a throttle pause, a slow backend call) and nothing else can happen
+            if not state["cut"] and m is not None and n - adv0 == m:
+                do_cut()
+
+        adv0 = w.loop.time_advances
         w.net.on_event = on_event
         w.loop.iter_hook = on_iter
+        w.loop.time_hook = on_time
         chooser.active = explore_all
         if k == 0:
             from vf.world import Running
@@ -80,15 +120,12 @@ def run_cut(case, chooser):
                 break
             rig.ev(0, e)
         reached = state["cut"]
+        w.loop.time_hook = None
         if not reached:
             # the script has fewer than k events: nothing to check in this execution
             return {"problems": [], "reached": False, "trace": report.fp(w.net.trace), "events": w.net.n_events,
-                    "outcome": "not-reached"}
-        # "without waiting for further input": the clock is frozen, except that a
-        # backend which needs time for each call gets the time for 6 calls
-        # (less than any timeout configured on this server)
-        grace = 0.75 if case["backend"] == "slow" else 0
-        w.settle(grace)
+                    "outcome": "not-reached", "advances": w.loop.time_advances - adv0}
+        w.settle(max(0.0, state["deadline"] - w.loop.time()))
         chooser.active = False
         if kind in ("fin", "rst", "ctl-fin"):
             s0 = rig.sessions[0]
@@ -157,12 +194,12 @@ def run_cut(case, chooser):
         rig.close()
 
 
-def count_events(script, backend, second):
-    """number of network events of the fault-free run"""
-    case = {"script": script, "backend": backend, "cut": "fin", "k": 10 ** 9, "second": second}
+def count_events(script, backend, second, variant="plain", advances=False):
+    """number of network events (or of virtual-time advances) of the fault-free run"""
+    case = {"script": script, "backend": backend, "cut": "fin", "k": 10 ** 9, "second": second, "variant": variant}
     ch = Chooser()
     res = run_cut(case, ch)
-    return res["events"]
+    return res["advances"] if advances else res["events"]
 
 
 def _work(item):
@@ -189,6 +226,8 @@ def _work(item):
             for p in res["problems"]:
                 sig = {"kind": p["kind"], "script": case["script"], "cut": case["cut"],
                        "backend_suspends": case["backend"] != "memory"}
+                if case.get("variant", "plain") != "plain":
+                    sig["variant"] = case["variant"]
                 part.violation(sig, {"problem": p, "case": case, "deviations": ch.deviations},
                                replay={"case": case, "choices": ch.choices, "kinds": sorted(kinds or [])})
     except ReplayDivergence as exc:
@@ -197,7 +236,8 @@ def _work(item):
 
 
 def _name(case):
-    return f"{case['script']}/{case['backend']}/{case['cut']}@{case['k']}+{case.get('j', 0)}"
+    at = f"t{case['m']}" if case.get("m") is not None else f"{case['k']}+{case.get('j', 0)}"
+    return f"{case['script']}/{case['backend']}/{case.get('variant', 'plain')}/{case['cut']}@{at}"
 
 
 def build_items(tier):
@@ -224,7 +264,30 @@ def build_items(tier):
                         for j in range(0, 4 if tier == "quick" else 7):
                             case = {"script": script, "backend": backend, "cut": "close", "k": k, "j": j,
                                     "second": False}
-                            items.append((case, 1 if tier != "quick" else 0, kinds, 3000))
+                            items.append((case, 1 if (tier != "quick" or backend == "memory") else 0, kinds, 3000))
+    for variant, vscripts in VARIANT_SCRIPTS.items():
+        for script in vscripts:
+            nev = count_events(script, "memory", False, variant)
+            for k in range(0, nev + 1):
+                for cut in ("fin", "rst"):
+                    case = {"script": script, "backend": "memory", "cut": cut, "k": k, "second": False,
+                            "variant": variant, "explore_all": tier != "quick"}
+                    items.append((case, bound, kinds, 3000 if tier == "quick" else 20000))
+                for j in range(0, 4 if tier == "quick" else 7):
+                    case = {"script": script, "backend": "memory", "cut": "close", "k": k, "j": j, "second": False,
+                            "variant": variant}
+                    items.append((case, 1, kinds, 3000))
+    # cuts that land while the server sleeps on a timer (throttle pause / slow backend call): before every advance
+    # of virtual time of the fault-free run
+    for variant, backend, vscripts in (("throttled", "memory", VARIANT_SCRIPTS["throttled"]),
+                                       ("plain", "slow", corpus.TRANSFER_SCRIPTS + ["dirs", "rename"])):
+        for script in vscripts:
+            nadv = count_events(script, backend, False, variant, advances=True)
+            for m in range(0, nadv):
+                for cut in ("fin", "rst", "close"):
+                    case = {"script": script, "backend": backend, "cut": cut, "k": -1, "m": m, "second": False,
+                            "variant": variant}
+                    items.append((case, bound, kinds, 3000))
     return items
 
 
@@ -236,9 +299,12 @@ def run(tier, seed, t0):
     part = report.merge_all(report.pmap(_work, items))
     bounds = {"scripts": len(corpus.SCRIPTS), "backends": list(BACKENDS), "cut_kinds": ["fin (all sockets)", "rst", "fin on the control connection only", "server.close()"],
               "cut_positions": "every delivered network event k of the fault-free run (k=0..N); server.close() "
-                               "additionally at iterations j=0..%d after event k" % (3 if tier == "quick" else 6),
+                               "additionally at iterations j=0..%d after event k; for the throttled server and the slow "
+                               "backend additionally before every advance of virtual time (the server sleeps on a timer)"
+                               % (3 if tier == "quick" else 6),
               "deviation_bound": 1, "deviation_kinds": ["early", "order"] if tier == "quick" else ["early", "order", "batch"],
               "deviations_explored": "after the cut (quick); whole script (thorough, single session)",
+              "server_variants": {k: VARIANT_SCRIPTS.get(k, "all scripts") for k in VARIANTS},
               "concurrent_sessions": "1 and 2", "send_window": "lock-step (1 byte)", "cases": len(items)}
     return report.finish(
         PID, tier, seed, "fault_enumeration", part, t0,
